@@ -19,6 +19,10 @@
 //!     version written (renewed in time => not handed to someone else);
 //!   * an acquire is refused only with the chunks some live lease holds
 //!     (expired leases are acquirable), and goes on only when none overlaps;
+//!   * "live" is judged by the oracle's OWN deadline per lease = hook-clock time
+//!     at which its last successful acquire / renew was decided + 300 s (TTL
+//!     hard-coded in the oracle), never by the `expires_at` stored in the file;
+//!     and the stored `expires_at` of every captured version must equal it;
 //!   * a renew of an absent / terminal lease is answered with the error.
 //!
 //! Time: the code reads `Utc::now() + offset`.  The harness starts a case with
@@ -199,8 +203,49 @@ struct PL {
     status: char,
 }
 
-fn live(l: &PL, now: i64) -> bool {
-    l.status == 'A' && l.exp > now
+/// The oracle keeps its OWN deadline per lease, independent of the `expires_at`
+/// stored in the file: (hook-clock time at which the last successful acquire or
+/// renew of that lease was decided) + TTL.  The TTL is hard-coded here on
+/// purpose (the property text: 300 s), it is not read from the sources.
+const ORACLE_TTL_S: i64 = 300;
+
+#[derive(Default, Clone)]
+struct Deadlines {
+    d: HashMap<u32, i64>,
+    renewals: HashMap<u32, u32>,
+}
+
+impl Deadlines {
+    fn acquired(&mut self, id: u32, decided_at: i64) {
+        self.d.insert(id, decided_at + ORACLE_TTL_S);
+        self.renewals.insert(id, 0);
+    }
+    fn renewed(&mut self, id: u32, decided_at: i64) {
+        self.d.insert(id, decided_at + ORACLE_TTL_S);
+        *self.renewals.entry(id).or_insert(0) += 1;
+    }
+    /// a lease id the oracle has never seen acquired is reported separately
+    /// ("a lease id nobody was given"); its stored field is used then
+    fn of(&self, l: &PL) -> i64 {
+        self.d.get(&l.id).copied().unwrap_or(l.exp)
+    }
+    fn live(&self, l: &PL, now: i64) -> bool {
+        l.status == 'A' && self.of(l) > now
+    }
+    /// (b) the expires_at stored in a version must be the oracle's deadline
+    fn stored_mismatch(&self, t: &[PL]) -> Option<String> {
+        for l in t {
+            if let Some(d) = self.d.get(&l.id) {
+                if l.exp != *d {
+                    return Some(format!(
+                        "lease {} (holder {}) is stored with expires_at = {}s, but its last successful acquire/renew was decided at {}s: it must end at {}s (TTL {} s)",
+                        l.id, l.holder, l.exp, d - ORACLE_TTL_S, d, ORACLE_TTL_S
+                    ));
+                }
+            }
+        }
+        None
+    }
 }
 
 fn show_pl(l: &PL) -> String {
@@ -283,10 +328,10 @@ fn canon_table(ls: &CompactionLeases, base: Base, ids: &HashMap<u32, String>) ->
 }
 
 /// property predicate: two distinct leases live at `now` never share a chunk
-fn excl_failure(t: &[PL], now: i64) -> Option<String> {
+fn excl_failure(dl: &Deadlines, t: &[PL], now: i64) -> Option<String> {
     for i in 0..t.len() {
         for j in (i + 1)..t.len() {
-            if live(&t[i], now) && live(&t[j], now) {
+            if dl.live(&t[i], now) && dl.live(&t[j], now) {
                 if let Some(c) = t[i].chunks.iter().find(|c| t[j].chunks.contains(c)) {
                     return Some(format!(
                         "leases {} (holder {}) and {} (holder {}) are both active and unexpired at t={}s and share chunk {}",
@@ -300,12 +345,12 @@ fn excl_failure(t: &[PL], now: i64) -> Option<String> {
 }
 
 /// a lease that is live at the time of a write must still be in the table written
-fn dropped_live(before: &[PL], after: &[PL], now: i64) -> Option<String> {
+fn dropped_live(dl: &Deadlines, before: &[PL], after: &[PL], now: i64) -> Option<String> {
     for l in before {
-        if live(l, now) && !after.iter().any(|x| x.id == l.id) {
+        if dl.live(l, now) && !after.iter().any(|x| x.id == l.id) {
             return Some(format!(
-                "lease {} (holder {}, expires at {}s) was live at t={}s and is gone from the next version",
-                l.id, l.holder, l.exp, now
+                "lease {} (holder {}, last acquire/renew + TTL = {}s) was live at t={}s and is gone from the next version",
+                l.id, l.holder, dl.of(l), now
             ));
         }
     }
@@ -313,10 +358,10 @@ fn dropped_live(before: &[PL], after: &[PL], now: i64) -> Option<String> {
 }
 
 /// requested chunks held by a lease live at `now`, in request order
-fn live_overlap(t: &[PL], now: i64, chunks: &[u32]) -> Vec<u32> {
+fn live_overlap(dl: &Deadlines, t: &[PL], now: i64, chunks: &[u32]) -> Vec<u32> {
     chunks
         .iter()
-        .filter(|c| t.iter().any(|l| live(l, now) && l.chunks.contains(c)))
+        .filter(|c| t.iter().any(|l| dl.live(l, now) && l.chunks.contains(c)))
         .cloned()
         .collect()
 }
@@ -428,6 +473,8 @@ async fn run_s3_async(case: &Case) -> Outcome {
     let mut now_s: i64 = 0;
     let mut versions: Vec<(usize, Vec<PL>)> = Vec::new();
     let mut cur: Vec<PL> = Vec::new();
+    let mut dl = Deadlines::default();
+    let mut decided_at = vec![0i64; n]; // hook-clock time of the node's latest load (= decision)
     for step in &case.sched {
         match step {
             Step::Tick(d) => {
@@ -468,19 +515,22 @@ async fn run_s3_async(case: &Case) -> Outcome {
                 let last_result = if finished { results.lock().unwrap()[c].last().cloned().unwrap_or_default() } else { String::new() };
                 if info.verb == "GET" {
                     // the load and the decision happened in this step, against `cur` at `now_s`
+                    decided_at[c] = now_s;
                     match &op {
                         Op::A { chunks, .. } => {
-                            let ov = live_overlap(&cur, now_s, chunks);
+                            let ov = live_overlap(&dl, &cur, now_s, chunks);
                             let expect = format!("X{}", ov.iter().map(|c| c.to_string()).collect::<Vec<_>>().join("+"));
                             if finished {
                                 out.events.push("acquire.refused");
                                 if ov.is_empty() {
-                                    out.bad.push(format!("acquire {} was refused ({}) at t={}s although no live lease holds any of its chunks: an expired or finished lease is not acquirable", enc_op(&op), last_result, now_s));
+                                    out.bad.push(format!("acquire {} was refused ({}) at t={}s although no active lease whose last successful acquire/renew is less than {} s old holds any of its chunks: a lease whose holder stopped renewing (or that is finished) is not acquirable after its time-to-live", enc_op(&op), last_result, now_s, ORACLE_TTL_S));
                                 } else if last_result != expect {
                                     out.bad.push(format!("acquire {} was refused with {} but the chunks held by live leases at t={}s are {}", enc_op(&op), last_result, now_s, expect));
                                 }
                             } else if !ov.is_empty() {
                                 out.bad.push(format!("acquire {} goes ahead at t={}s although live leases hold {}", enc_op(&op), now_s, expect));
+                            } else if cur.iter().any(|l| l.status == 'A' && dl.of(l) <= now_s && dl.renewals.get(&l.id).copied().unwrap_or(0) >= 2 && l.chunks.iter().any(|x| chunks.contains(x))) {
+                                out.events.push("acquire.after_renewals_then_silence");
                             }
                         }
                         Op::R(i) => {
@@ -499,7 +549,7 @@ async fn run_s3_async(case: &Case) -> Outcome {
                                     }
                                 }
                                 Some(l) => {
-                                    if l.exp <= now_s {
+                                    if dl.of(l) <= now_s {
                                         out.events.push("renew.after_expiry_unreclaimed");
                                     }
                                     if finished {
@@ -523,13 +573,25 @@ async fn run_s3_async(case: &Case) -> Outcome {
                         match parsed {
                             Some(ls) => {
                                 let t = canon_table(&ls, base, &m);
-                                if let Some(f) = excl_failure(&t, now_s) {
+                                // this write is the commit of node c's operation, decided at its latest load
+                                match &op {
+                                    Op::A { id, .. } => dl.acquired(*id, decided_at[c]),
+                                    Op::R(i) => {
+                                        dl.renewed(*i, decided_at[c]);
+                                        out.events.push("renew.committed");
+                                    }
+                                    _ => {}
+                                }
+                                if let Some(f) = dl.stored_mismatch(&t) {
+                                    out.bad.push(format!("version {} written by node {} ({}) at t={}s: {}", versions.len() + 1, c, enc_op(&op), now_s, f));
+                                }
+                                if let Some(f) = excl_failure(&dl, &t, now_s) {
                                     out.bad.push(format!("version {} written by node {} at t={}s: {}", versions.len() + 1, c, now_s, f));
                                 }
-                                if let Some(f) = dropped_live(&cur, &t, now_s) {
+                                if let Some(f) = dropped_live(&dl, &cur, &t, now_s) {
                                     out.bad.push(format!("version {} written by node {} ({}): {}", versions.len() + 1, c, enc_op(&op), f));
                                 }
-                                if cur.iter().any(|l| l.status == 'A' && l.exp <= now_s && !t.iter().any(|x| x.id == l.id)) {
+                                if cur.iter().any(|l| l.status == 'A' && dl.of(l) <= now_s && !t.iter().any(|x| x.id == l.id)) {
                                     out.events.push("expired.reclaimed");
                                 }
                                 if t.iter().any(|l| l.id == 0) {
@@ -557,7 +619,7 @@ async fn run_s3_async(case: &Case) -> Outcome {
             Ok(ls) => {
                 let m = ids.lock().unwrap().clone();
                 let t = canon_table(&ls, base, &m);
-                if let Some(f) = excl_failure(&t, now_s) {
+                if let Some(f) = excl_failure(&dl, &t, now_s) {
                     out.bad.push(format!("load_leases at t={}s: {}", now_s, f));
                 }
                 show_table(&t)
@@ -612,6 +674,7 @@ async fn run_local_async(hist: &[HStep]) -> Outcome {
     let ids: Arc<Mutex<HashMap<u32, String>>> = Arc::new(Mutex::new(HashMap::new()));
     let mut now_s: i64 = 0;
     let mut cur: Vec<PL> = Vec::new();
+    let mut dl = Deadlines::default();
     let mut toks = Vec::new();
     for s in hist {
         match s {
@@ -626,19 +689,28 @@ async fn run_local_async(hist: &[HStep]) -> Outcome {
                     Ok(ls) => canon_table(&ls, base, &m),
                     Err(_) => Vec::new(),
                 };
-                if let Some(f) = excl_failure(&t, now_s) {
+                // the operation is atomic: it was decided now
+                match op {
+                    Op::A { id, .. } if r.starts_with('L') => dl.acquired(*id, now_s),
+                    Op::R(i) if r == "U" => dl.renewed(*i, now_s),
+                    _ => {}
+                }
+                if let Some(f) = dl.stored_mismatch(&t) {
                     out.bad.push(format!("in-memory table after {} at t={}s: {}", enc_op(op), now_s, f));
                 }
-                if let Some(f) = dropped_live(&cur, &t, now_s) {
+                if let Some(f) = excl_failure(&dl, &t, now_s) {
+                    out.bad.push(format!("in-memory table after {} at t={}s: {}", enc_op(op), now_s, f));
+                }
+                if let Some(f) = dropped_live(&dl, &cur, &t, now_s) {
                     out.bad.push(format!("in-memory table after {}: {}", enc_op(op), f));
                 }
                 match op {
                     Op::A { chunks, .. } => {
-                        let ov = live_overlap(&cur, now_s, chunks);
+                        let ov = live_overlap(&dl, &cur, now_s, chunks);
                         let expect = format!("X{}", ov.iter().map(|c| c.to_string()).collect::<Vec<_>>().join("+"));
                         if r.starts_with('X') {
                             if ov.is_empty() {
-                                out.bad.push(format!("in-memory acquire {} refused ({}) at t={}s although no live lease overlaps", enc_op(op), r, now_s));
+                                out.bad.push(format!("in-memory acquire {} refused ({}) at t={}s although no active lease whose last successful acquire/renew is less than {} s old overlaps it: not acquirable after the time-to-live", enc_op(op), r, now_s, ORACLE_TTL_S));
                             } else if r != expect {
                                 out.bad.push(format!("in-memory acquire {} refused with {} but live leases hold {}", enc_op(op), r, expect));
                             }
@@ -788,6 +860,70 @@ fn gen_starvation(rng: &mut Rng) -> Case {
     Case { progs: vec![vec![victim, Op::S], p1], sched }
 }
 
+/// node 0 acquires and renews IN TIME 2-4 times, then falls silent for more than
+/// the TTL; node 1 probes with overlapping acquires shortly before and at/after
+/// `last renew + 300 s`; sometimes the old holder comes back (told "not found")
+/// and a third node scavenges in between
+fn gen_renew_then_silence(rng: &mut Rng) -> Case {
+    let k = rng.range_usize(2, 4);
+    let c0: Vec<u32> = if rng.chance(1, 2) { vec![1, 2] } else { vec![2] };
+    let c1: Vec<u32> = match rng.below(3) {
+        0 => vec![2, 3],
+        1 => vec![2],
+        _ => vec![3, 2, 4],
+    };
+    let mut p0 = vec![Op::A { id: 1, holder: 10, chunks: c0, level: 0 }];
+    for _ in 0..k {
+        p0.push(Op::R(1));
+    }
+    let comes_back = rng.chance(1, 2);
+    if comes_back {
+        p0.push(Op::R(1));
+    }
+    let p1 = vec![
+        Op::A { id: 2, holder: 11, chunks: c1.clone(), level: 0 },
+        Op::A { id: 3, holder: 11, chunks: c1.clone(), level: 1 },
+        Op::A { id: 4, holder: 11, chunks: c1, level: 1 },
+    ];
+    let third = rng.chance(1, 4);
+    let mut progs = vec![p0, p1];
+    if third {
+        progs.push(vec![Op::S, Op::S]);
+    }
+    let mut sched = vec![Step::Req(0), Step::Req(0)];
+    for _ in 0..k {
+        sched.push(Step::Tick(*rng.pick(&[60u64, 115, 120, 120, 125, 180, 240, 295])));
+        sched.push(Step::Req(0));
+        sched.push(Step::Req(0));
+        if third && rng.chance(1, 3) {
+            sched.push(Step::Req(2));
+            sched.push(Step::Req(2));
+        }
+    }
+    // silence of node 0 from here on
+    let mut since = 0u64;
+    if rng.chance(2, 3) {
+        let d = *rng.pick(&[5u64, 120, 180, 295]);
+        sched.push(Step::Tick(d));
+        since += d;
+        sched.push(Step::Req(1)); // still inside the TTL: refused in one request
+    }
+    let target = *rng.pick(&[300u64, 300, 305, 420, 600, 900]);
+    if target > since {
+        sched.push(Step::Tick(target - since));
+    }
+    if third && rng.chance(1, 2) {
+        sched.push(Step::Req(2));
+        sched.push(Step::Req(2));
+    }
+    sched.extend([Step::Req(1), Step::Req(1), Step::Req(1)]);
+    if comes_back {
+        sched.extend([Step::Req(0), Step::Req(0)]);
+    }
+    sched.extend([Step::Req(1), Step::Req(1)]);
+    Case { progs, sched }
+}
+
 /// exhaustive small scope: 2 nodes, (acquire; renew) against (acquire | scavenge | renew ...),
 /// every request interleaving of length `len`, one tick of 295/300/305 s at every position
 fn exhaustive(len: usize) -> Vec<Case> {
@@ -845,6 +981,11 @@ fn corpus() -> Vec<Case> {
         "S|0|A.1.10.1+2.0,C.1,R.1/A.2.11.2.0,S,F.2,R.2|q0,q0,q0,q0,q1,q1,q0,q1,q1,q1,q1,q1",
         // empty chunk list, duplicate chunk in a request, unknown ids
         "S|0|A.1.10..0,A.2.10.1+1.0,R.99/C.99,F.99,A.3.11.1.0,S|q0,q0,q1,q1,q0,q0,q1,q1,q0,q1",
+        // three in-time renewals (120 s cadence), then silence: refused 5 s before
+        // last renew + 300 s, granted at last renew + 300 s
+        "S|0|A.1.10.1+2.0,R.1,R.1,R.1/A.2.11.2+3.0,A.3.11.2+3.0|q0,q0,t120000,q0,q0,t120000,q0,q0,t120000,q0,q0,t295000,q1,t5000,q1,q1",
+        // two renewals, silence of 420 s, the other node takes over, the old holder is told
+        "S|0|A.1.10.2.0,R.1,R.1,R.1/A.2.11.2+3.0|q0,q0,t120000,q0,q0,t120000,q0,q0,t420000,q1,q1,q0",
         // three nodes, first-write race of all three
         "S|0|A.1.10.1.0/A.2.11.1+2.0/A.3.12.2+3.0|q0,q1,q2,q2,q1,q0,q0,q1,q1,q0",
     ];
@@ -936,6 +1077,10 @@ fn main() {
     for _ in 0..(if thorough { 1500 } else { 150 }) {
         let mut r = rng.fork();
         cases.push(("starvation", gen_starvation(&mut r)));
+    }
+    for _ in 0..(if thorough { 4000 } else { 400 }) {
+        let mut r = rng.fork();
+        cases.push(("renew_then_silence", gen_renew_then_silence(&mut r)));
     }
     for _ in 0..(if thorough { 40000 } else { 3000 }) {
         let mut r = rng.fork();
